@@ -1,6 +1,6 @@
 (* C03  GMM ML training never decreases the likelihood and stops by its stated rule. *)
 From Coq Require Import Reals List.
-From BLE Require Import Num.InstR Model.GMM Proofs.RLemmas Proofs.GMMLik Proofs.GMMStats Proofs.GMMEM Proofs.GMMFit.
+From BLE Require Import Num.InstR Model.GMM Proofs.RLemmas Proofs.GMMLik Proofs.GMMStats Proofs.GMMEM Proofs.GMMFit Proofs.GMMRun.
 Import ListNotations MR.
 Open Scope R_scope.
 
@@ -49,6 +49,28 @@ Theorem C03_cap_irrelevant_after_stop tr sw eps cthr nf chunks cap cap' step pre
   fit_loop cap' step prev tr sw eps cthr nf chunks mc hist = Some r.
 Proof. exact (fit_cap_irrelevant_after_stop tr sw eps cthr nf chunks cap cap' step prev mc hist r). Qed.
 Print Assumptions C03_cap_irrelevant_after_stop.
+
+(* a whole training run: as long as no floor is active at any of its iterations, the reported values (each the average
+   log-likelihood of the parameters entering that iteration; most recent first in hist) never decrease from one iteration to the
+   next, and the returned model scores at or above every one of them - whatever the threshold, the cap and the update switches *)
+Theorem C03_reported_value_is_the_entering_models_average_log_likelihood (sw : switches) (eps : R) (nf : nat) (X : list (list R)) (mc mc1 : machine) (cur : R) :
+  X <> [] -> em_iter ML sw eps nf [X] mc = Some (mc1, cur) ->
+  mc1 = ml_m_step sw eps (e_step nf (g mc) X) mc /\ cur = avg_ll (g mc) X.
+Proof. exact (reported_is_avg_ll sw eps nf X mc mc1 cur). Qed.
+Print Assumptions C03_reported_value_is_the_entering_models_average_log_likelihood.
+
+Theorem C03_training_run_never_lowers_the_likelihood (sw : switches) (eps : R) (cthr : option R) (nf cap : nat) (X : list (list R))
+    (mc mc' : machine) (n : nat) (hist : list R) :
+  X <> [] -> GMMStats.rows_ok nf X -> 0 < eps ->
+  wf_gmm nf (g mc) -> rsum (ws (g mc)) = 1 ->
+  length (ws (g mc)) = length (mus (g mc)) -> length (ws (g mc)) = length (vars (g mc)) ->
+  fit cap ML sw eps cthr nf [X] mc = Some (mc', n, hist) ->
+  inactive_along sw eps nf X n mc ->
+  (forall i, (S i < n)%nat -> nth (S i) hist 0 <= nth i hist 0)
+  /\ (forall i, (i < n)%nat -> nth i hist 0 <= avg_ll (g mc') X)
+  /\ wf_gmm nf (g mc').
+Proof. exact (ml_fit_monotone sw eps cthr nf cap X mc mc' n hist). Qed.
+Print Assumptions C03_training_run_never_lowers_the_likelihood.
 
 Example C03_nonvacuous : wf_gmm 2 {| ws := [/4; 3/4]; mus := [[0; 0]; [4; 4]]; vars := [[1; 1]; [2; /2]] |}
                         /\ rsum [/4; 3/4] = 1.
